@@ -184,8 +184,9 @@ ExecOp(s, op) ==
          [] op \in {"stop", ".defaulterrorhandler"} ->
               \* the default handler of errordict executed directly (no pending error)
               \* behaves like the standard handlers: it stops the program
-              \* no `stopped` context exists: stop ends the current Execute call without error
-              [s EXCEPT !.est = <<>>, !.feed = DropCall(@)]
+              \* no `stopped` context exists: stop ends the current Execute call without error; inside
+              \* an eexec section it ends the section with it, and the dictionary stack stays as it is
+              [s EXCEPT !.est = <<>>, !.feed = DropCall(@), !.eex = 0]
          [] op = "bind" ->
               IF n < 1 THEN Fail(s, {"stackunderflow"})
               ELSE IF A(st, 0).t # "proc" THEN Fail(s, {"typecheck"})
